@@ -536,6 +536,10 @@ func genPrioScenario(rng *rand.Rand, g prioGen) PrioScenario {
 				}
 				sort.Slice(ps, func(i, j int) bool { return ps[i] < ps[j] })
 				p := ps[rng.IntN(len(ps))]
+				if rng.IntN(3) == 0 {
+					// remove an input that was closed and has been seen drained
+					out = append(out, POp{K: "C", P: p}, POp{K: "D"}, POp{K: "R", Mode: "all"}, POp{K: "D"})
+				}
 				out = append(out, POp{K: "rm", P: p})
 				present[p] = false
 				removed = append(removed, p)
